@@ -130,4 +130,7 @@ theorem symlink_result_matches_backend (s0 : St) (rs : List Req) (h0 : CInv s0) 
       MatchesLstat s'.fs (joinName n.path name) a :=
   procSymlink_handle _ s' c args fh fa w (runReqs_cinv s0 rs h0) h
 
+/-- regenerated from the source on every run: MNT cleans the requested path before anything is derived from it (the model's cleanAbs) -/
+theorem gen_mnt_cleans_path : Gen.mntCleansPath = true := by decide
+
 end Props.C04
